@@ -13,7 +13,9 @@
 (***************************************************************************)
 EXTENDS OlcArt
 
-CONSTANT IterChecksAfterNextRead   \* protection: "no further child" is acted upon only after re-validating the node
+CONSTANT IterChecksAfterNextRead,  \* protection: "no further child" is acted upon only after re-validating the node
+         KeepSeen                  \* observation only: a finished scan keeps its visitor sequence (behaviour replay
+                                   \* compares it with the real visitor calls); FALSE in the exhaustive runs
 
 VARIABLE it     \* per thread: iterator state and scan ghosts
 
@@ -95,7 +97,7 @@ Apply(t, res, extraBad) ==
              r2 == Return(th[t], t, Ok)
              flag == IF extraBad # "" THEN extraBad
                      ELSE IF ~(due \subseteq seenK) THEN "ScanComplete(a key present throughout was not delivered)" ELSE ""
-         IN /\ it' = [it EXCEPT ![t] = NoIt]
+         IN /\ it' = [it EXCEPT ![t] = IF KeepSeen THEN [on |-> FALSE, seen |-> I.seen] ELSE NoIt]
             /\ th' = [th EXCEPT ![t] = r2]
             /\ bad' = IF flag # "" /\ bad = "" THEN flag ELSE bad
             /\ waitfor' = QuiesceAt(waitfor, t, r2)
